@@ -35,6 +35,8 @@ def register(lib):
             return x.shape[0]
         if isinstance(x, BM.BytesBase):
             return x.length
+        if isinstance(x, SymSeq):
+            return x.length
         if isinstance(x, SObj):
             if (x.clsname, '__len__') in M:
                 return M[(x.clsname, '__len__')](I, x)
@@ -523,6 +525,12 @@ def register(lib):
 
     # ------------------------------------------------------------------ misc stdlib
     E['time.time'] = lambda I: cur().sym_float('time')
+
+    def pkg_dist(I, name):
+        o = SObj(None, clsname='$dist')
+        o.fields['version'] = SymStr('version', name)
+        return o
+    E['pkg_resources.get_distribution'] = pkg_dist
     E['platform.system'] = lambda I: 'Linux'
     E['random.choice'] = lambda I, seq: lib.concrete_iter(I, seq)[0]
     E['os.path.exists'] = lambda I, p: cur().sym_bool('exists')
